@@ -2,7 +2,8 @@ import Infretis.Model.Proto
 import Infretis.Model.Vel
 import Infretis.Model.VelRoute
 import Infretis.Model.VelFlow
-open Infretis Infretis.Proto Infretis.Vel Infretis.VelRoute Infretis.VelFlow
+import Infretis.Model.VelExtra
+open Infretis Infretis.Proto Infretis.Vel Infretis.VelRoute Infretis.VelFlow Infretis.VelExtra
 
 /-
 Line protocol of C16 (one request per line):
@@ -11,6 +12,14 @@ Line protocol of C16 (one request per line):
       <tmplBox:list rat> <sig:list rat> <cols z> <cols srcVel> <cols pos> <box:-|list rat> <ids:list nat>
     cols X := n X₁ … Xₙ with each Xᵢ a `list rat` (one column of a (npart, n) array)
   answer: stream method loc npart dim scaleSq | momSq | mass | beta | kinOld | kinNew | dek | vel | pos | box | ids
+
+    `mod` runs `VelExtra.modifyVelocitiesS … hasRgen := true` (= `Vel.modifyVelocities` when the frame has as many atoms
+    as the engine has masses; length-1 mass list: numpy's broadcast; otherwise  err:shape)
+  mods <hasRgen:0|1> <same tokens as mod>        answer as mod, or  err:shape | err:norgen
+  modt <vDim:asIs|repaired> <dim> <same tokens as mod, engine turtlemd>     runs `VelExtra.modifyTurtleD`; answer as mod
+  lmass <asIs|repaired> <full|charge|other> <nAtoms> <nTypes> <massRows:-|list rat (id m id m …)>
+        <atoms:-|nrows width v₁₁ … >             runs `VelExtra.getAtomMasses`
+    answer  err:<notimplemented|value|index>  or  <list rat>
 
   shoot <engine> <vKin> <vRng> <idx:-|nat> <sameConf:0|1>
     runs prepareShootingPoint on a two-frame file and one System; answers which attributes of the
@@ -81,7 +90,18 @@ def showDek : Dek → String
 def showStream : Stream → String
   | .engineRgen => "rgen" | .numpyGlobal => "global"
 
-def handleMod (toks : List String) : Option String := do
+structure ModArgs where
+  eng : Engine
+  vk : Variant
+  vr : Variant
+  s : Setup
+  src : Frame
+  ek : Option Rat
+  zm : Option Bool
+  sig : List Rat
+  z : List (List Rat)
+
+def parseMod (toks : List String) : Option ModArgs := do
   match toks with
   | eng :: vk :: vr :: t :: b :: zm :: ek :: rest =>
     let eng ← parseEngine eng
@@ -102,15 +122,78 @@ def handleMod (toks : List String) : Option String := do
     if rest ≠ [] then none
     let s : Setup := { engine := eng, temperature := t, boltzmann := b, massIn := massIn, tmplBox := tmpl }
     let src : Frame := { pos := pos, vel := sv, box := box, ids := ids }
-    let r := modifyVelocities vk vr s src ek zm sig z
-    let q := r.request
-    let momSq := match eng with | .ase => aseMomSq s | _ => []
-    some (String.intercalate " | " [
-      s!"{showStream q.stream} {q.method} {showRat q.loc} {q.npart} {q.dim} {showOptRats q.scaleSq}",
-      showRats momSq, showRats (mass s), showRat (beta s),
-      (match r.kinOld with | none => "-" | some k => showRat k),
-      showRat r.kinNew, showDek r.dek, showCols r.frame.vel, showCols r.frame.pos,
-      showOptRats r.frame.box, showList toString r.frame.ids])
+    some { eng := eng, vk := vk, vr := vr, s := s, src := src, ek := ek, zm := zm, sig := sig, z := z }
+  | _ => none
+
+def showResult (a : ModArgs) (r : Result) : String :=
+  let q := r.request
+  let momSq := match a.eng with | .ase => aseMomSq a.s | _ => []
+  String.intercalate " | " [
+    s!"{showStream q.stream} {q.method} {showRat q.loc} {q.npart} {q.dim} {showOptRats q.scaleSq}",
+    showRats momSq, showRats (mass a.s), showRat (beta a.s),
+    (match r.kinOld with | none => "-" | some k => showRat k),
+    showRat r.kinNew, showDek r.dek, showCols r.frame.vel, showCols r.frame.pos,
+    showOptRats r.frame.box, showList toString r.frame.ids]
+
+def handleModS (hasRgen : Bool) (toks : List String) : Option String := do
+  let a ← parseMod toks
+  match modifyVelocitiesS a.vk a.vr hasRgen a.s a.src a.ek a.zm a.sig a.z with
+  | .error .shape => some "err:shape"
+  | .error .noRgen => some "err:norgen"
+  | .ok r => some (showResult a r)
+
+def handleMod (toks : List String) : Option String := handleModS true toks
+
+def handleModsOp (toks : List String) : Option String :=
+  match toks with
+  | "0" :: rest => handleModS false rest
+  | "1" :: rest => handleModS true rest
+  | _ => none
+
+def handleModT (toks : List String) : Option String := do
+  match toks with
+  | vd :: dim :: rest =>
+    let vd ← parseVariant vd
+    let dim ← parseNat? dim
+    let a ← parseMod rest
+    if a.eng ≠ .turtlemd then none
+    some (showResult a (modifyTurtleD vd dim a.s a.src a.zm a.sig a.z))
+  | _ => none
+
+def pairUp : List Rat → Option (List (Rat × Rat))
+  | [] => some []
+  | a :: b :: t => (pairUp t).map (fun r => (a, b) :: r)
+  | _ => none
+
+def takeRows (w : Nat) : Nat → List Rat → Option (List (List Rat))
+  | 0, [] => some []
+  | 0, _ => none
+  | n + 1, l => if l.length < w then none else (takeRows w n (l.drop w)).map (fun r => l.take w :: r)
+
+def handleLMass (toks : List String) : Option String := do
+  match toks with
+  | v :: st :: na :: nt :: rest =>
+    let v ← parseVariant v
+    let st ← (match st with | "full" => some AtomStyle.full | "charge" => some AtomStyle.charge
+                            | "other" => some AtomStyle.other | _ => none)
+    let na ← parseNat? na
+    let nt ← parseNat? nt
+    let (mr, rest) ← takeOptList rest
+    let mr : Option (List (Rat × Rat)) ← (match mr with | none => some none | some l => (pairUp l).map some)
+    let atoms : Option (List (List Rat)) ← (match rest with
+      | ["-"] => some none
+      | nr :: w :: vals => do
+        let nr ← parseNat? nr
+        let w ← parseNat? w
+        let vals ← vals.mapM parseRat?
+        let rows ← takeRows w nr vals
+        some (some rows)
+      | _ => none)
+    match getAtomMasses v st { nAtoms := na, nTypes := nt, massRows := mr, atoms := atoms } with
+    | .error .notImplemented => some "err:notimplemented"
+    | .error .value => some "err:value"
+    | .error .index => some "err:index"
+    | .ok ms => some (showRats ms)
   | _ => none
 
 def diffSys (a b : Sys) : String :=
@@ -279,6 +362,9 @@ def handleGmass (toks : List String) : Option String := do
 def handle (toks : List String) : String :=
   match toks with
   | "mod" :: rest => (handleMod rest).getD "bad-op"
+  | "mods" :: rest => (handleModsOp rest).getD "bad-op"
+  | "modt" :: rest => (handleModT rest).getD "bad-op"
+  | "lmass" :: rest => (handleLMass rest).getD "bad-op"
   | "shoot" :: rest => (handleShoot rest).getD "bad-op"
   | "route" :: rest => (handleRoute rest).getD "bad-op"
   | "draw" :: rest => (handleDraw rest).getD "bad-op"
